@@ -251,7 +251,7 @@ fn run_case(seed: u64, index: u64, interference: bool, rep: &mut Report) {
     let recreated = nested_type_recreated(&a.doc);
     rep.add(if recreated { "histories_with_a_re_created_nested_type" } else { "histories_without_a_re_created_nested_type" }, 1);
     for mut f in fails {
-        if recreated { let c = f["class"].as_str().unwrap_or("").to_string(); if c.starts_with("undo-") || c.starts_with("redo-") || c.starts_with("replicas-diverge") { f["class"] = json!(format!("{c}:after-a-nested-type-was-re-created")); } }
+        f["nested_type_was_re_created"] = json!(recreated);
         f["property"] = json!("C12"); f["case"] = json!({"stream": if interference { 122 } else { 121 }, "index": index, "seed": seed}); f["script"] = json!(script); rep.fail(f); }
     if rep.samples.len() < 2 && n_undo > 1 && n_redo > 0 { rep.sample(json!({"case": index, "script": script})); }
 }
